@@ -2,6 +2,9 @@
 //! Usage: anydb-verif <PROPERTY> [--tier quick|thorough] [--replay <path>]
 
 mod c_crash;
+mod c_eager;
+mod c_fault;
+mod c_import;
 mod c_codec;
 mod c_raw;
 mod c_vec;
@@ -77,12 +80,39 @@ fn main() {
         "C02" => c_raw::check_c02(&ctx),
         "C03" => c_vec::check_c03(&ctx),
         "C04" => c_vec::check_c04(&ctx),
+        "C06" if ctx.replay.is_some() => c_eager::replay_eager(&ctx, 6, c_eager::ECfg { steps: 7, versions: false }),
+        "C19" if ctx.replay.is_some() => c_eager::replay_eager(&ctx, 19, c_eager::ECfg { steps: 9, versions: true }),
+        "C06" => c_eager::check_c06(&ctx),
+        "C19" => c_eager::check_c19(&ctx),
         "C07" => c_vec::check_c07(&ctx),
         "C08" => c_vec::check_c08(&ctx),
         "C20" => c_vec::check_c20(&ctx),
         "C05" => c_crash::check_c05(&ctx),
         "C12" => c_crash::check_c12(&ctx),
         "C13" => c_vec::check_c13(&ctx),
+        "C14" => c_import::check_c14(&ctx),
+        "C16" => c_vec::check_c16(&ctx),
+        "dbg-fpi" => {
+            use vecdb::{AnyStoredVec, EagerVec, Exit, ImportableVec, LZ4Vec, ReadableVec, Version, WritableVec, ZstdVec, AnyVec};
+            let tmp = common::TempDir::new("dbg");
+            let db = vecdb::Database::open(tmp.path()).unwrap();
+            let fpi: Vec<usize> = vec![1, 2, 3, 3, 4, 6, 7, 8, 9, 10, 11, 12, 14, 14, 14, 15, 16, 17, 18, 19, 19, 20, 21, 21, 22, 23, 24, 25, 27, 28, 28, 28, 29, 31, 31, 33, 33, 34, 36, 36, 37, 38, 40, 40, 41, 42, 43, 43, 43, 44, 45, 46, 46, 47, 49, 51, 51, 52, 52, 52, 53, 53, 54, 55, 55, 55, 56, 58];
+            let mut src: ZstdVec<usize, usize> = ZstdVec::forced_import(&db, "fpi", Version::new(1)).unwrap();
+            let mut out: EagerVec<LZ4Vec<usize, usize>> = EagerVec::forced_import(&db, "out", Version::new(1)).unwrap();
+            let mut have = 0;
+            for (k, (n, mf)) in [(26usize, 0usize), (65, 26), (68, 65)].into_iter().enumerate() {
+                for &x in &fpi[have..n] { src.push(x); }
+                have = n;
+                src.flush().unwrap();
+                let mut sc: EagerVec<LZ4Vec<usize, usize>> = EagerVec::forced_import(&db, &format!("scratch{}", k + 1), Version::new(1)).unwrap();
+                sc.compute_first_per_index(0, &src, &Exit::new()).unwrap();
+                println!("scratch{}: len {}", k + 1, sc.len());
+                sc.remove().unwrap();
+                out.compute_first_per_index(mf, &src, &Exit::new()).unwrap();
+                println!("out: len {}", out.len());
+            }
+            0
+        }
         "C13raw" => {
             let report = common::Report::new("C13");
             let c = c_raw::c13_raw_campaign(&ctx, &report, ctx.secs(10.0, 60.0));
